@@ -639,10 +639,13 @@ impl<'a, 'b> W<'a, 'b> {
                 self.out.push('<');
                 self.out.push_str(&q);
                 self.attrs(&[("type".to_string(), "String".to_string())], 0);
-                let mut mode = self.lex.pick(4);
-                if text.contains('\r') {
+                let mut mode = self.lex.pick(5);
+                if text.contains('\r') && mode != 4 {
                     // a carriage return survives only as a character reference (literal ones are normalised to line feeds)
                     mode = 1;
+                }
+                if text.is_empty() && mode == 4 {
+                    mode = 0;
                 }
                 if text.is_empty() && mode >= 2 {
                     self.close_start(true);
@@ -654,6 +657,57 @@ impl<'a, 'b> W<'a, 'b> {
                     1 => {
                         let t = esc_text(text, self.lex);
                         self.out.push_str(&t)
+                    }
+                    4 => {
+                        // shredded: pieces of one to three characters, alternately CDATA sections and escaped text; a line
+                        // feed may be spelt as a literal carriage return (+ line feed), which every XML parser turns into
+                        // a line feed again
+                        let step = 1 + self.lex.pick(3);
+                        let chars: Vec<char> = text.chars().collect();
+                        let mut in_cdata = self.lex.flag(2);
+                        for chunk in chars.chunks(step) {
+                            let s: String = chunk.iter().collect();
+                            let eol = |s: &str, lex: &mut Lex| -> String {
+                                if s.contains('\n') && lex.flag(3) {
+                                    s.replace('\n', ["\r\n", "\r"][lex.pick(2)])
+                                } else {
+                                    s.to_string()
+                                }
+                            };
+                            if in_cdata && !s.contains('\r') && !s.contains("]]>") {
+                                self.out.push_str("<![CDATA[");
+                                let t = eol(&s, self.lex);
+                                self.out.push_str(&t);
+                                self.out.push_str("]]>");
+                            } else {
+                                // (a carriage return of the string itself becomes a character reference here)
+                                let mut t = String::new();
+                                for c in s.chars() {
+                                    match c {
+                                        '&' => t.push_str("&amp;"),
+                                        '<' => t.push_str("&lt;"),
+                                        '>' => t.push_str("&gt;"),
+                                        '\r' => t.push_str("&#13;"),
+                                        '\n' => {
+                                            let e = eol("\n", self.lex);
+                                            // a literal carriage return that stands for a line feed must not meet a literal line feed
+                                            if t.ends_with('\r') && e == "\n" {
+                                                t.push_str("&#10;");
+                                            } else {
+                                                t.push_str(&e);
+                                            }
+                                        }
+                                        c => t.push(c),
+                                    }
+                                }
+                                // a literal carriage return that stands for a line feed must not meet a literal line feed
+                                if self.out.ends_with('\r') && t.starts_with('\n') {
+                                    t.replace_range(0..1, "&#10;");
+                                }
+                                self.out.push_str(&t);
+                            }
+                            in_cdata = !in_cdata;
+                        }
                     }
                     _ => {
                         // mixed: first half escaped text, second half CDATA
